@@ -537,6 +537,8 @@ class Checker:
             ctx.count('depth:%d' % rec['meta']['depth'])
             if rec['case'].get('fault'):
                 ctx.count('fault:' + rec['case']['fault'])
+            if 't' in rec['case']['params'] or any(n['k'] == 'for' and n['idx'] == 't' for n in ptgen.spec_nodes(rec['case']['spec'])):
+                ctx.count('scope-entry-named-t')
             if impl['status'] == 'ok':
                 if 'samples' in self.aspects:
                     ctx.count('grid-points', len(rec['grid']) * (len(impl['chans']) if isinstance(impl['chans'], list) else 0))
